@@ -5,4 +5,5 @@ let () =
   | "syntax" -> Syntax.run_syntax ic
   | "hash" -> Hashmodel.run_hash ic
   | "graph" -> Graphmodel.run_graph ic
+  | "runcache" -> Runcachemodel.run_runcache ic
   | m -> prerr_endline ("unknown mode " ^ m); exit 2
